@@ -1184,6 +1184,67 @@ fn fam_mapneg(_func: Option<&str>, only: Option<u64>) {
     rep.print();
 }
 
+// C05, bounded stand-in for the ASSUMED object decider on INDEX SIGNATURES with non-trivial key domains (the `mapneg`
+// universe has `string` and finite key sets only): `S(v) <: B` for exact objects v over the keys "a", "xa", "1" with
+// values 1 or "s", against index-signature types {[k: K]: T} and unions/intersections of two of them, K in
+// {string, number, `x${string}`, "a" | "xa"}, T in {string, number}. Oracle (structural reading of the right side):
+// v is a member iff every property whose key lies in K has a value in T; key membership: every key is a string,
+// "1" is also a number key, `x${string}` matches the keys that start with x. Exact in both directions.
+fn fam_idxsig(_func: Option<&str>, only: Option<u64>) {
+    use beff_core::ast::runtype::{Runtype, RuntypeConst, TplLitType, TplLitTypeItem};
+    let mut rep = Rep::new("idxsig", "dnf_mapping_is_empty", only);
+    #[derive(Clone, Copy, Debug, PartialEq)]
+    enum K { Str, Num, XPrefix, AorXa }
+    #[derive(Clone, Copy, Debug, PartialEq)]
+    enum T { Str, Num }
+    let keys = ["a", "xa", "1"];
+    let key_in = |k: &str, d: K| match d { K::Str => true, K::Num => k == "1", K::XPrefix => k.starts_with('x'), K::AorXa => k == "a" || k == "xa" };
+    let mk_key = |d: K| -> Runtype { match d {
+        K::Str => Runtype::string(), K::Num => Runtype::number(),
+        K::XPrefix => Runtype::tpl_lit_type(TplLitType(vec![TplLitTypeItem::StringConst("x".into()), TplLitTypeItem::String])),
+        K::AorXa => Runtype::any_of(vec![Runtype::single_string_const("a"), Runtype::single_string_const("xa")]),
+    } };
+    let mk_t = |t: T| -> Runtype { match t { T::Str => Runtype::string(), T::Num => Runtype::number() } };
+    // values: objects with up to two of the three keys, each 1 or "s"
+    let mut objs: Vec<Vec<(&'static str, bool)>> = vec![vec![]];   // (key, is_number)
+    for (i, k) in keys.iter().enumerate() {
+        for n in [true, false] { objs.push(vec![(*k, n)]); }
+        for k2 in keys.iter().skip(i + 1) { for n in [true, false] { for n2 in [true, false] { objs.push(vec![(*k, n), (*k2, n2)]); } } }
+    }
+    // number-keyed signatures are left out: the engine never applies them to a property (keys are string literals),
+    // TypeScript applies them to numeric-like keys, the run-time validator rejects every extra key under them -
+    // there is no agreed reading to check against (noted in DESIGN.md, section 9)
+    let sigs: Vec<(K, T)> = [K::Str, K::XPrefix].iter().flat_map(|k| [T::Str, T::Num].iter().map(move |t| (*k, *t))).collect();
+    let member = |o: &Vec<(&'static str, bool)>, s: &(K, T)| o.iter().all(|(k, isnum)| !key_in(k, s.0) || (*isnum == (s.1 == T::Num)));
+    let mk_sig = |s: &(K, T)| Runtype::record(mk_key(s.0), mk_t(s.1).required());
+    // targets: one signature; union of two; intersection of two
+    let mut targets: Vec<(String, Runtype, Box<dyn Fn(&Vec<(&'static str, bool)>) -> bool>)> = vec![];
+    for s1 in &sigs {
+        let a = *s1;
+        targets.push((format!("{{[k: {:?}]: {:?}}}", a.0, a.1), mk_sig(&a), Box::new(move |o| member(o, &a))));
+        for s2 in &sigs {
+            let c = *s2;
+            if a == c { continue; }
+            targets.push((format!("{{[k: {:?}]: {:?}}} | {{[k: {:?}]: {:?}}}", a.0, a.1, c.0, c.1), Runtype::any_of(vec![mk_sig(&a), mk_sig(&c)]), Box::new(move |o| member(o, &a) || member(o, &c))));
+            targets.push((format!("{{[k: {:?}]: {:?}}} & {{[k: {:?}]: {:?}}}", a.0, a.1, c.0, c.1), Runtype::all_of(vec![mk_sig(&a), mk_sig(&c)]), Box::new(move |o| member(o, &a) && member(o, &c))));
+        }
+    }
+    for (descr, tb, oracle) in &targets {
+        for o in &objs {
+            if !rep.want() { continue; }
+            let spec = oracle(o);
+            let sv = Runtype::object(o.iter().map(|(k, n)| (k.to_string(), if *n { Runtype::const_(RuntypeConst::parse_int(1)).required() } else { Runtype::single_string_const("s").required() })).collect());
+            let mut ctx = SemTypeContext::new();
+            let (Ok(ta), Ok(tbs)) = (sv.to_sem_type(&[], &mut ctx), tb.to_sem_type(&[], &mut ctx)) else { continue };
+            match ta.is_subtype(&tbs, &mut ctx) {
+                Ok(r) => if r != spec { rep.fail(format!("exact object {:?} (true = the value 1, false = \"s\") against {}", o, descr), format!("is_subtype = {}", r), format!("{} (every property whose key lies in the key domain has a value of the value type)", spec)); },
+                Err(_) => {}   // refused (e.g. intersection of index signatures with different key types): not an answer
+            }
+        }
+    }
+    rep.print();
+}
+
 // C05, bounded stand-in for the ASSUMED conversion Runtype -> SemType of NAMED, possibly RECURSIVE types
 // (subtyping/mod.rs: convert_to_sem_type and its *_runtype_ref_memo cuts) together with the deciders on the
 // result. Questions are of the form  S(v) <: B  where S(v) is the singleton type of a finite value v (consts,
@@ -1499,6 +1560,7 @@ fn main() {
         "listneg" => fam_listneg(f, only),
         "mapneg" => fam_mapneg(f, only),
         "listneg2" => fam_listneg2(f, only),
+        "idxsig" => fam_idxsig(f, only),
         "refs" => fam_refs(f, only, false, false),
         "refspanic" => fam_refs(f, only, true, false),
         "refsshared" => fam_refs(f, only, false, true),
